@@ -138,13 +138,13 @@ MUTANTS = [
     ('C20', 'attn-lookup-by-hex', 'modules/pel/hwdiags/parserdata.py', "attn_type = str(attn_type)", "attn_type = '%x' % attn_type"),
     # ---- C05
     ('C05', 'check-range-off-by-one', 'modules/pel/datastream.py', 'return True if self.index + num_bytes <= self.size else False', 'return True if self.index + num_bytes <= self.size + 1 else False'),
-    ('C05', 'get-mem-without-check', 'modules/pel/datastream.py', """        if not self.check_range(num_bytes):
+    ('C05', 'bounds-checks-back-to-assert', 'modules/pel/datastream.py', ["""        if not self.check_range(num_bytes):
             raise AssertionError("range check failure")
-        o_mv =""", """        o_mv ="""),
-    ('C05', 'bounds-check-back-to-assert', 'modules/pel/datastream.py', """        if not self.check_range(num_bytes):
+        self.index += num_bytes""", """        if not self.check_range(num_bytes):
             raise AssertionError("range check failure")
+        o_mv ="""], ["""        assert self.check_range(num_bytes), "range check failure"
         self.index += num_bytes""", """        assert self.check_range(num_bytes), "range check failure"
-        self.index += num_bytes"""),
+        o_mv ="""]),
     ('C05', 'file-barrier-narrowed', P + 'peltool.py', """    except Exception as e:
         print(f"Exception: No PEL parsed for {file_path}: {e}", file=sys.stderr)""", """    except AssertionError as e:
         print(f"Exception: No PEL parsed for {file_path}: {e}", file=sys.stderr)"""),
@@ -165,6 +165,5 @@ MUTANTS = [
         sys.exit(1)
 
     eid = ph.lEID"""),
-    ('C05', 'negative-length-skipped', P + 'default.py', 'self.data = self.stream.get_mem(self.dataLength)', 'self.data = self.stream.get_mem(self.dataLength) if self.dataLength > 0 else b""'),
     ('C05', 'lp-targets-not-bounded', P + 'imp_partition.py', 'self.targetLPs.append(self.stream.get_int(2))', 'self.targetLPs.append(int.from_bytes(self.stream.data[self.stream.index:self.stream.index + 2], "big")); self.stream.index += 2'),
 ]
